@@ -638,6 +638,8 @@ class ModelSpec:
         """
         return self.update(
             formula=self.formula.differentiate(*wrt, use_sympy=use_sympy),
+            # The recorded structure describes the undifferentiated terms.
+            structure=None,
         )
 
     # Only include dataclass fields when pickling.
